@@ -277,6 +277,14 @@ def impl(case):
         sp = {m["name"]: {p: _spwrap(v, spk, n) for p, v in m["params"]} for m in case["metrics"] if m["params"]}
         if not sp:
             sp = None
+    # a None-valued per-sample parameter (documented as "not given") placed BEFORE the real ones must not
+    # affect them
+    import hashlib as _h
+    if sp is not None and int(_h.sha1(json.dumps([case["label"], case["y_pred"]]).encode()).hexdigest(), 16) % 3 == 0:
+        if case["callable"]:
+            sp = {"not_given": None, **sp}
+        else:
+            sp = {k_: {"not_given": None, **v_} for k_, v_ in sp.items()}
     kw = {}
     if case["cf"]:
         kw["control_features"] = _features(case["cf"], case["cf_container"], case["cf_names"])
